@@ -86,7 +86,77 @@ func (p *Prog) Func(rel, name string) *ssa.Function {
 	if fn == nil || fn.Blocks == nil {
 		Undecide("anchor: no SSA body for %s.%s", rel, name)
 	}
-	return fn
+	if AnchorHelpers == nil {
+		p.installAnchorHelpers()
+	}
+	return resolveAnchor(fn)
+}
+
+// installAnchorHelpers: the helpers of fn are the package-level functions and methods of fn's package that fn
+// calls statically (directly or from its closures) and that no other function of the repository calls.
+func (p *Prog) installAnchorHelpers() {
+	callers := map[*ssa.Function]map[*ssa.Function]bool{}
+	top := func(f *ssa.Function) *ssa.Function {
+		for f.Parent() != nil {
+			f = f.Parent()
+		}
+		return f
+	}
+	for _, f := range p.RepoFunctions() {
+		Instrs(f, func(in ssa.Instruction) {
+			ci, ok := in.(ssa.CallInstruction)
+			if !ok {
+				return
+			}
+			c := StaticFn(ci.Common())
+			if c == nil || c.Parent() != nil || c.Blocks == nil {
+				// a function value taken (method value, callback) also counts as a use
+				return
+			}
+			if callers[c] == nil {
+				callers[c] = map[*ssa.Function]bool{}
+			}
+			callers[c][top(f)] = true
+		})
+		// functions used as values (callbacks, method values) are not helpers of a single caller
+		Instrs(f, func(in ssa.Instruction) {
+			for _, op := range in.Operands(nil) {
+				if *op == nil {
+					continue
+				}
+				if fv, ok := (*op).(*ssa.Function); ok && fv.Parent() == nil {
+					if ci, isCall := in.(ssa.CallInstruction); isCall && ci.Common().Value == ssa.Value(fv) {
+						continue
+					}
+					if callers[fv] == nil {
+						callers[fv] = map[*ssa.Function]bool{}
+					}
+					callers[fv][nil] = true
+				}
+			}
+		})
+	}
+	AnchorHelpers = func(fn *ssa.Function) []*ssa.Function {
+		var out []*ssa.Function
+		seen := map[*ssa.Function]bool{}
+		for _, m := range WithClosures(fn) {
+			Instrs(m, func(in ssa.Instruction) {
+				ci, ok := in.(ssa.CallInstruction)
+				if !ok {
+					return
+				}
+				c := StaticFn(ci.Common())
+				if c == nil || c == fn || seen[c] || c.Parent() != nil || c.Blocks == nil || c.Pkg == nil || c.Pkg != fn.Pkg {
+					return
+				}
+				seen[c] = true
+				if len(callers[c]) == 1 && callers[c][fn] {
+					out = append(out, c)
+				}
+			})
+		}
+		return out
+	}
 }
 
 // ExtFuncObj resolves a function or method in any loaded package by full path.
@@ -101,6 +171,17 @@ func (p *Prog) ExtFuncObj(path, name string) *types.Func {
 // FuncDecl resolves an anchor to its syntax.
 func (p *Prog) FuncDecl(rel, name string) (*ast.FuncDecl, *packages.Package) {
 	obj := p.FuncObj(rel, name)
+	// the syntax follows the anchor's re-resolution (see Report.Guard)
+	if fn := p.SSA.FuncValue(obj); fn != nil && fn.Blocks != nil {
+		if AnchorHelpers == nil {
+			p.installAnchorHelpers()
+		}
+		if h := resolveAnchor(fn); h != fn {
+			if ho, ok := h.Object().(*types.Func); ok {
+				obj = ho
+			}
+		}
+	}
 	fd := p.declOf[obj]
 	if fd == nil {
 		Undecide("anchor: no syntax for %s.%s", rel, name)
